@@ -1,4 +1,190 @@
-/-! Line protocol handler for the `grp` domain (stub until the model exists). -/
+import OFCore.Group
+/-!
+Line protocol handler for the `grp` domain (C10, C11). One self-contained case per line:
+
+    grp <roles> <count> <members> <op> <role> <args…>
+
+* `<roles>`   role table: top-level roles separated by `,`, each `<max|->:<nsubs>`
+* `<count>`   number of groups
+* `<members>` `g.r` per person joined by `,` (group index . flattened role index), `-` if none
+* `<role>`    `-` | `?` (not a Role object) | `t<k>` (top-level role k) | `f<k>` (flattened role k)
+* values      `i:1,-2,3` integers, `b:TFT` booleans
+* ops         sum any all min max nb nth first from project positions omap hasrole rank chain
+
+Answers: comma-joined values (`T`/`F`, integers, `inf`, `-inf`), `[]` for an empty array, `ERR`
+for any error of the model, `BAD` for a malformed line.
+-/
 namespace OFCore.Drv
-def handleGrp (_args : List String) : String := "BAD"
+open OFCore.Grp
+
+structure RoleTable where
+  top : List Role
+  flat : List Role
+
+def parseRoleTable (s : String) : Option RoleTable :=
+  let rec go (parts : List String) (k : Nat) (nflat : Nat) (top flat : List Role) : Option RoleTable :=
+    match parts with
+    | [] => some ⟨top.reverse, flat.reverse⟩
+    | part :: rest =>
+      match part.splitOn ":" with
+      | [mx, ns] =>
+        match (if mx = "-" then some none else mx.toNat?.map some), ns.toNat? with
+        | some mx, some ns =>
+          if ns = 0 then
+            let r : Role := ⟨nflat, [], mx⟩
+            go rest (k + 1) (nflat + 1) (r :: top) (r :: flat)
+          else
+            let ids := (List.range ns).map (· + nflat)
+            let subs := ids.map (fun i => (⟨i, [], some 1⟩ : Role))
+            go rest (k + 1) (nflat + ns) (⟨1000000 + k, ids, some ns⟩ :: top) (subs.reverse ++ flat)
+        | _, _ => none
+      | _ => none
+  go (s.splitOn ",") 0 0 [] []
+
+inductive RoleArg | none | invalid | role (r : Role)
+
+def parseRoleArg (t : RoleTable) (s : String) : Option RoleArg :=
+  if s = "-" then some .none
+  else if s = "?" then some .invalid
+  else
+    let k := (s.drop 1).toString.toNat?
+    match s.front, k with
+    | 't', some k => (t.top[k]?).map .role
+    | 'f', some k => (t.flat[k]?).map .role
+    | _, _ => Option.none
+
+def parseMembers (s : String) : Option (List Member) :=
+  if s = "-" then some [] else
+  (s.splitOn ",").mapM fun x =>
+    match x.splitOn "." with
+    | [g, r] => do pure ⟨← g.toNat?, ← r.toNat?⟩
+    | _ => none
+
+inductive Vals | ints (l : List Int) | bools (l : List Bool)
+
+def parseVals (s : String) : Option Vals :=
+  if s.startsWith "i:" then
+    let body := (s.drop 2).toString
+    if body = "" then some (.ints []) else ((body.splitOn ",").mapM String.toInt?).map .ints
+  else if s.startsWith "b:" then
+    let body := (s.drop 2).toString
+    (body.toList.mapM fun c => if c = 'T' then some true else if c = 'F' then some false else none).map .bools
+  else none
+
+def Vals.toInts : Vals → List Int
+  | .ints l => l
+  | .bools l => l.map b2i
+
+def showList {α} (f : α → String) (l : List α) : String :=
+  if l.isEmpty then "[]" else ",".intercalate (l.map f)
+
+def showB (b : Bool) : String := if b then "T" else "F"
+def showI (i : Int) : String := toString i
+def showE : EInt → String
+  | .negInf => "-inf" | .posInf => "inf" | .fin v => toString v
+
+def out {α} (f : α → String) : Except String (List α) → String
+  | .ok l => showList f l
+  | .error _ => "ERR"
+
+/-- result of a method as extended integers (booleans as 0/1), for the projector chains -/
+inductive GOp
+  | sum (v : Vals) | any (v : Vals) | all (v : List Bool) | min (v : List Int) | max (v : List Int) | nb
+  | nth (k : Nat) (d : Int) (v : Vals) | first (v : Vals) | from_ (d : Int) (v : Vals)
+  | hasrole | rank (c : List Int) (b : List Bool)
+
+def parseOp (op : String) (args : List String) : Option GOp :=
+  match op, args with
+  | "sum", [v] => (parseVals v).map .sum
+  | "any", [v] => (parseVals v).map .any
+  | "all", [v] => match parseVals v with | some (.bools l) => some (.all l) | _ => none
+  | "min", [v] => match parseVals v with | some (.ints l) => some (.min l) | _ => none
+  | "max", [v] => match parseVals v with | some (.ints l) => some (.max l) | _ => none
+  | "nb", [] => some .nb
+  | "nth", [k, d, v] => do pure (.nth (← k.toNat?) (← d.toInt?) (← parseVals v))
+  | "first", [v] => (parseVals v).map .first
+  | "from", [d, v] => do pure (.from_ (← d.toInt?) (← parseVals v))
+  | "hasrole", [] => some .hasrole
+  | "rank", [c, b] => match parseVals c, parseVals b with
+    | some (.ints c), some (.bools b) => some (.rank c b) | _, _ => none
+  | _, _ => none
+
+def GOp.level : GOp → Level
+  | .hasrole | .rank .. => .person
+  | _ => .group
+
+/-- typed answer of an op: left = text as the op itself prints it, right = the same values as
+extended integers (for chains) -/
+def runOp (p : Pop) (role : Option Role) : GOp → Except String (String × List EInt)
+  | .sum v => (groupSum p v.toInts role).map fun r => (showList showI r, r.map .fin)
+  | .any v => (match v with
+      | .bools l => groupAny p l role
+      | .ints l => groupAnyI p l role).map fun r => (showList showB r, r.map (.fin ∘ b2i))
+  | .all l => (groupAll p l role).map fun r => (showList showB r, r.map (.fin ∘ b2i))
+  | .min l => (groupMin p l role).map fun r => (showList showE r, r)
+  | .max l => (groupMax p l role).map fun r => (showList showE r, r)
+  | .nb => (nbPersons p role).map fun r => (showList showI r, r.map .fin)
+  | .nth k d v => match v with
+    | .ints l => (valueNth p k l d).map fun r => (showList showI r, r.map .fin)
+    | .bools l => (valueNth p k l (d != 0)).map fun r => (showList showB r, r.map (.fin ∘ b2i))
+  | .first v => match v with
+    | .ints l => (valueFromFirst p l 0).map fun r => (showList showI r, r.map .fin)
+    | .bools l => (valueFromFirst p l false).map fun r => (showList showB r, r.map (.fin ∘ b2i))
+  | .from_ d v => match role with
+    | none => .error "role required"
+    | some ro => match v with
+      | .ints l => (valueFromPerson p l ro d).map fun r => (showList showI r, r.map .fin)
+      | .bools l => (valueFromPerson p l ro (d != 0)).map fun r => (showList showB r, r.map (.fin ∘ b2i))
+  | .hasrole => match role with
+    | none => .error "role required"
+    | some ro => .ok (showList showB (p.hasRole ro), (p.hasRole ro).map (.fin ∘ b2i))
+  | .rank c b => (getRank p c b).map fun r => (showList showI r, r.map .fin)
+
+def parseShortcuts (t : RoleTable) (s : String) : Option (List Shortcut) :=
+  (s.splitOn ".").mapM fun x =>
+    if x = "h" then some .entity
+    else if x = "fp" then some .firstPerson
+    else if x = "x" then some .other
+    else match parseRoleArg t x with
+      | some (.role r) => some (.role r)
+      | _ => none
+
+def handleGrp (args : List String) : String :=
+  match args with
+  | rt :: cnt :: mem :: op :: role :: rest =>
+    match parseRoleTable rt, cnt.toNat?, parseMembers mem with
+    | some t, some n, some ms =>
+      let p : Pop := ⟨n, ms⟩
+      match parseRoleArg t role with
+      | none => "BAD"
+      | some .invalid =>
+        -- `check_role_validity` raises for anything that is not a Role (nb_persons fails on the
+        -- attribute access instead); every op taking a role answers ERR
+        "ERR"
+      | some ra =>
+        let ro : Option Role := match ra with | .role r => some r | _ => none
+        match op, rest with
+        | "positions", [] => out toString (membersPosition p.ids)
+        | "omap", [] => showList toString (orderedMap p.ids)
+        | "project", [v] => match parseVals v with
+          | some (.ints l) => out showI (project p l 0 ro)
+          | some (.bools l) => match ro with
+            | none => out showB (project p l false none)
+            | some r => out showI (project p (l.map b2i) 0 (some r))   -- numpy promotes where(c, bool, 0)
+          | none => "BAD"
+        | "chain", start :: sc :: op2 :: rest2 =>
+          match (if start = "p" then some Level.person else if start = "g" then some Level.group else none),
+                parseShortcuts t sc, parseOp op2 rest2 with
+          | some lvl, some ss, some gop =>
+            out showE (chainCall p (.fin 0) lvl ss fun l =>
+              if l = gop.level then (runOp p ro gop).map (·.2) else .error "wrong level")
+          | _, _, _ => "BAD"
+        | _, _ => match parseOp op rest with
+          | some gop => match runOp p ro gop with
+            | .ok (s, _) => s
+            | .error _ => "ERR"
+          | none => "BAD"
+    | _, _, _ => "BAD"
+  | _ => "BAD"
+
 end OFCore.Drv
